@@ -209,6 +209,16 @@ ADDED = {
     "C14__more": ' Failed reconnect attempts (onClose without onOpen) are part of the loss model.',
     "C18__more": ' Getter bursts: several get_message() calls outstanding at close.',
     "C19__more": ' allocate_code() before and after the connection is up.',
+    "C01__r5": ' A same-code configuration under duplicated/reordered delivery: no WrongPasswordError with the same code, and agreement is reached once both entered it and everything was delivered.',
+    "C02__r5": ' A variant injects after a reconnect whose replay the server withholds.',
+    "C04__r5": ' A directory offer cut short at a solver-chosen point touches nothing in the file system (job shared with C05).',
+    "C07__r5": ' Variant late-bytes: closes are asynchronous and the application may cancel connect(); go may only be written to the connection connect() returns.',
+    "C08__r5": ' A welcome error may arrive on a later connection.',
+    "C10__r5": " One configuration writes 65515 bytes (an encoded record between Noise's payload and message limits); the network model reports reconnect livelocks.",
+    "C11__r5": ' One canonical order keeps other attempts of the generation in flight at selection time.',
+    "C14__r5": ' Three application phases in flight with duplicated/reordered delivery.',
+    "C15__r5": " A job family lets the transport resume from inside a producer's turn; the oracle takes the transport's last signal as the truth.",
+    "C16__r5": ' Jobs monitor_net run two real dilation stacks on the in-memory network (any link may die at any moment, then more than three ping intervals pass): the Leader must not be left holding a dead connection.',
 }
 for _k, _v in ADDED.items():
     CHECKS[_k.split("__")[0]]["text"] = CHECKS[_k.split("__")[0]]["text"].rstrip() + _v
